@@ -910,6 +910,23 @@ func (e *Env) callExpr(n *ast.CallExpr) Val {
 			return boolVal(fmt.Sprintf("(forall ((%s Int)) %s)", bv, body))
 		}
 		return boolVal(fmt.Sprintf("(exists ((%s Int)) (and %s %s))", bv, tf, body))
+	case "deepeq":
+		// deepeq(a, b): a and b (same type) are equal as values: integers, booleans and fixed arrays field by field,
+		// strings and byte slices by length and content, other slices element by element; pointers, maps, channels,
+		// functions and interfaces are not comparable this way (fields named in further arguments are skipped)
+		if len(n.Args) < 2 {
+			specErrf("deepeq(a, b, skippedField...)")
+		}
+		a, b := e.eval(n.Args[0]), e.eval(n.Args[1])
+		skip := map[string]bool{}
+		for _, x := range n.Args[2:] {
+			id, ok := x.(*ast.Ident)
+			if !ok {
+				specErrf("deepeq: skipped fields are given by name")
+			}
+			skip[id.Name] = true
+		}
+		return boolVal(e.deepEq(a.T, a.S, b.S, skip, 0))
 	case "allocated":
 		// allocated(x): the object x refers to (pointer, map, slice, channel) exists in the current state, i.e. it was
 		// allocated before this point (nil counts as allocated). In a loop invariant: "not created by a later iteration".
@@ -1639,4 +1656,58 @@ func (e *Env) keyOf(mi *mapInfo, k Val) Val {
 		specErrf("string map keys inside spec function bodies must be variables bound by forallkey/existskey")
 	}
 	return Val{T: k.T, S: []string{e.u.strKeyTerm(e.arr(strSite, SBV(8)), k)}}
+}
+
+// deepEq builds the value equality of two flattened values of type t.
+func (e *Env) deepEq(t types.Type, a, b []string, skip map[string]bool, depth int) string {
+	t = types.Unalias(t)
+	switch u := t.Underlying().(type) {
+	case *types.Basic:
+		if u.Info()&types.IsString != 0 {
+			arr := e.arr(strSite, SBV(8))
+			e.quant = true
+			k := quoteSym(fmt.Sprintf("q!de%d", e.u.ctx.nextID))
+			e.u.ctx.nextID++
+			return and(eq(a[1], b[1]), fmt.Sprintf("(forall ((%s Int)) (=> (and (<= 0 %s) (< %s %s)) (= (select %s (+ %s %s)) (select %s (+ %s %s)))))", k, k, k, a[1], arr, a[0], k, arr, b[0], k))
+		}
+		return eq(a[0], b[0])
+	case *types.Struct:
+		var cs []string
+		off := 0
+		for i := 0; i < u.NumFields(); i++ {
+			n := len(leavesOf(u.Field(i).Type(), "elem"))
+			if !skip[u.Field(i).Name()] {
+				cs = append(cs, e.deepEq(u.Field(i).Type(), a[off:off+n], b[off:off+n], skip, depth+1))
+			}
+			off += n
+		}
+		return and(cs...)
+	case *types.Array:
+		n := len(leavesOf(u.Elem(), "elem"))
+		var cs []string
+		for i := 0; i < int(u.Len()); i++ {
+			cs = append(cs, e.deepEq(u.Elem(), a[i*n:(i+1)*n], b[i*n:(i+1)*n], skip, depth+1))
+		}
+		return and(cs...)
+	case *types.Slice:
+		ls := leavesOf(u.Elem(), "elem")
+		stride := elemStride(u.Elem())
+		e.quant = true
+		k := quoteSym(fmt.Sprintf("q!de%d", e.u.ctx.nextID))
+		e.u.ctx.nextID++
+		var cs []string
+		for _, l := range ls {
+			if l.Kind == "ptr" || l.Kind == "map" || l.Kind == "chan" || l.Kind == "func" || strings.HasPrefix(l.Kind, "iface") || l.Kind == "slice.ptr" || l.Kind == "str.ptr" {
+				specErrf("deepeq: slice elements of type %s are not supported", u.Elem())
+			}
+			if l.Kind == "slice.len" || l.Kind == "slice.cap" || l.Kind == "str.len" {
+				specErrf("deepeq: slice elements of type %s are not supported", u.Elem())
+			}
+			arr := e.arr(l.Site, l.Sort)
+			cs = append(cs, eq(sel(arr, add(a[0], add(mul(k, intLit(int64(stride))), intLit(int64(l.Off))))), sel(arr, add(b[0], add(mul(k, intLit(int64(stride))), intLit(int64(l.Off)))))))
+		}
+		return and(eq(a[1], b[1]), fmt.Sprintf("(forall ((%s Int)) (=> (and (<= 0 %s) (< %s %s)) %s))", k, k, k, a[1], and(cs...)))
+	}
+	specErrf("deepeq: values of type %s are not comparable", t)
+	return ""
 }
